@@ -291,6 +291,7 @@ func (r role) String() string { return [...]string{"offset", "count", "bytelen"}
 type mark struct {
 	Pos  int
 	Role role
+	Base int // offset words: the absolute position the offset is relative to
 }
 
 type encd struct {
@@ -336,16 +337,16 @@ func headTail(items []item) encd {
 	off := headLen
 	for _, it := range items {
 		if it.dyn {
-			marks = append(marks, mark{len(head), rOffset})
+			marks = append(marks, mark{len(head), rOffset, 0})
 			head = append(head, wordInt(off)...)
 			for _, m := range it.e.marks {
-				marks = append(marks, mark{off + m.Pos, m.Role})
+				marks = append(marks, mark{off + m.Pos, m.Role, off + m.Base})
 			}
 			tail = append(tail, it.e.b...)
 			off += len(it.e.b)
 		} else {
 			for _, m := range it.e.marks {
-				marks = append(marks, mark{len(head) + m.Pos, m.Role})
+				marks = append(marks, mark{len(head) + m.Pos, m.Role, len(head) + m.Base})
 			}
 			head = append(head, it.e.b...)
 		}
@@ -437,7 +438,7 @@ func genEnc(r *cv.Rand, t *T, h sizeHint) encd {
 		} else {
 			b = r.Bytes(n)
 		}
-		return encd{append(wordInt(n), padRight(b)...), []mark{{0, rByteLen}}}
+		return encd{append(wordInt(n), padRight(b)...), []mark{{0, rByteLen, 0}}}
 	case kFixedArr, kDynArr:
 		n := t.Len
 		if t.K == kDynArr {
@@ -462,9 +463,9 @@ func genEnc(r *cv.Rand, t *T, h sizeHint) encd {
 		}
 		body := headTail(items)
 		if t.K == kDynArr {
-			ms := []mark{{0, rCount}}
+			ms := []mark{{0, rCount, 0}}
 			for _, m := range body.marks {
-				ms = append(ms, mark{32 + m.Pos, m.Role})
+				ms = append(ms, mark{32 + m.Pos, m.Role, 32 + m.Base})
 			}
 			return encd{append(wordInt(n), body.b...), ms}
 		}
